@@ -336,4 +336,15 @@ def modelSolveSet (brk : Bool) (x : Nat) (e1 e2 : IExpr) : Option (SolveSet Poly
   | .one s => some (.finite [s])
   | .unknown => none
 
+/-- A query to `solve_equal_for` and the answers to a whole call history: the model has no state, each answer is a
+function of its own query -/
+structure SolveQuery where
+  brk : Bool
+  x : Nat
+  e1 : IExpr
+  e2 : IExpr
+
+def solveAnswer (q : SolveQuery) : SolveRes := modelSolve q.brk q.x q.e1 q.e2
+def solveHistory (qs : List SolveQuery) : List SolveRes := qs.map solveAnswer
+
 end C17
